@@ -209,6 +209,17 @@ def obj_special_attr(I, obj, name):
 
 
 def super_fallback(I, sp, name):
+    mro = sp.obj.cls.mro() if isinstance(sp.obj, Obj) else sp.obj.mro()
+    for c in mro[mro.index(sp.cls) + 1:]:
+        if getattr(c, "external", False):
+            stub = I.w.stubs.get(f"{c.qualname}.{name}")
+            if stub is not None:
+                o = sp.obj
+                return native(lambda I_, a, k: stub(I_, [o] + list(a), k))
+            if name not in ("__init__", "__new__", "__setattr__"):
+                # method inherited from a class outside the repository: assumed effect-free on our state
+                I.w.assumptions.add(f"external base method {c.qualname[4:]}.{name} is effect-free and returns NotImplemented/None")
+                return native(lambda I_, a, k: None)
     if name == "__init__":
         o = sp.obj
 
